@@ -8,7 +8,7 @@ ASSUMPTIONS = [
     "rustc, Kani 0.68 (MIR->goto translation), CBMC 6.11, CaDiCaL, Verus 0.2026.09.13 and Z3 are trusted; Kani does not prove termination (all verified generated functions are loop-free)",
     "the dumped expansion equals the macro's output up to spans (TokenStream::to_string of the stream the macro returns, hook verif_hooks); replays use the real macro without hooks",
     "arbitrary-int 1.3.0 is inside the proofs (its real source is compiled by Kani) except that the UInt type invariant value<=MAX of symbolic INPUTS is assumed",
-    "spec/spec.rs is the oracle for 'bits lo..=hi' / 'rewrite exactly the field'; its adequacy against the per-bit model is proved in Verus for what meta/ covers and read by eye otherwise",
+    "spec/spec.rs is the oracle for 'bits lo..=hi' / 'rewrite exactly the field'; its adequacy against the per-bit model (get_model/put_model of meta/prelude.rs) is proved in Verus on the same file; the per-bit model itself and spec/dbgspec.rs are read, not proved",
     "stage-2 properties are proved per generated program of the corpus; 'for every declaration' is approached by the layout-parametric template obligations (PT) and the corpus, the generator's control flow between templates is not under contract",
     "optimiser correctness and const-eval/run-time agreement for safe integer code",
     "stub_verified uses a function's contract only if its own proof_for_contract harness passes in the same run (enforced by the runner)",
@@ -274,6 +274,14 @@ def run_x(out: Outcome, programs, prop, max_cex=8, nshards=None, timeout_s=600, 
         out.notes.append(f"{len(missing_fn)} obligations could not be stated because the expansion lacks the function: "
                          + "; ".join(f"{a}: {b}" for a, b in missing_fn[:5]))
         out.extra["obligations_not_statable"] = [a for a, _ in missing_fn]
+    # functions the expansion defines that no selected proof harness targets in this run (informational, never an alarm)
+    targeted = {C._canon_target(h.target) for hs_ in sel.values() for h in hs_ if h.target}
+    for p in progs:
+        for t in [e.name for e in p.enums] + [s.name for s in p.structs]:
+            if t in ann0:
+                for (ity, fn) in sorted(xrun.inventory_fns(ann0[t][1])):
+                    if (ity, fn) not in targeted and len(out.not_under_contract) < 200:
+                        out.not_under_contract.append(f"{p.mod}::{ity}::{fn}")
     ann = xrun.annotate(work, progs, dumps, sel)
     for t, (_, inv) in ann.items():
         if inv["unmatched_contracts"]:
